@@ -321,5 +321,6 @@ def integer_kernel_basis(cx):
         rm = toint(st['r_min'])
         return z3.And(inv(st), 0 <= rm, rm < nu.t, z3.Select(st['work'].t, rm)[toint(st['col'])] != 0)
     cx.invariant(0, inv); cx.invariant(1, inv); cx.invariant(2, inv_inner)
-    cx.ensures(lambda st, r: z3.BoolVal(st['$pending'].t is None))
+    # every equation (column of rows^T) has been eliminated when the kernel rows are read off: the column loop runs over ALL equations
+    cx.ensures(lambda st, r: z3.And(z3.BoolVal(st['$pending'].t is None), st['$i0'].t == m.t))
     cx.lemmas.append(('L-unimod: a product of elementary row operations (row_r -= q*row_s, swaps) is unimodular; the kernel rows of a unimodular echelon transformation generate the integer kernel', None))
